@@ -3,7 +3,9 @@
    engine = Running write / terminal write / close waiter / delete waiter; Submit, vault Create/Delete, clock).
    `fixed ms` is the code as it is now (mutex, waiter check, Read(unknown) is an error) with maxSubmit = ms;
    `reach c s`: s is reachable from the empty workstream by ANY sequence of steps (any interleaving of any
-   number of concurrent callers and engine goroutines). Only statements and `exact`; proofs in ApiProofs.v,
+   number of concurrent callers and engine goroutines). Status has no interval argument in the model: its
+   results do not depend on it, for any interval, positive or not (the harness calls it with 0 and negative
+   intervals too). Only statements and `exact`; proofs in ApiProofs.v,
    computed witnesses in ApiWitness.v. *)
 From Coq Require Import List ZArith Bool Arith.
 From Coercion.Base Require Import Plan.
